@@ -133,6 +133,8 @@ def run_weak(chk, spec):
 		"promoted-int-abs": lambda: (lambda d: (d.__setitem__(0, 3 + 4j), abs(d))[1])(Vector([1] * max(n, 1))),
 		"promoted-int-neg": lambda: (lambda d: (d.__setitem__(0, 2.5), -d)[1])(Vector([1] * max(n, 1))),
 		"promoted-int-invert-free": lambda: (lambda d: (d.__setitem__(0, 2.5), +d)[1])(Vector([1] * max(n, 1))),
+		"peek-non-string-names": lambda: Table([Vector([1, 2], name=2023), Vector([3, 4], name=(1, 2)), Vector(["a", "b"], name=None), Vector([5, 6], name=2.5)]).peek(),
+		"peek-args": lambda: Table([Vector(list(vals) or [1], name=7), Vector(list(vals) or [1], name="s")]).peek(2),
 		"zero-plus-bool": lambda: 0 + Vector([True, False][:max(1, min(n, 2))]),
 		"false-plus-bool": lambda: False + Vector([True, False][:max(1, min(n, 2))]),
 		"sum-of-bool-vectors": lambda: sum([Vector([True, False]), Vector([True, True])]),
@@ -190,7 +192,7 @@ def run_assign(chk, spec):
 			base[0] = rng.choice(common.ARITH_VALUES[kind])
 	v = Vector(list(base), name="v")
 	ok_val = lambda: rng.choice(common.ARITH_VALUES[kind])
-	special = {"promote": pool.wider(next((x for x in base if x is not None), 1)), "none": None, "incompatible": object(), "str": "zz",
+	special = {"int3": 3, "float3": 3.0, "complex3": complex(3, 0), "true": True, "int1": 1, "float1": 1.0, "promote": pool.wider(next((x for x in base if x is not None), 1)), "none": None, "incompatible": object(), "str": "zz",
 		"promote2": 1 + 1j, "bool": True, "narrower": True if kind in ("int", "float", "complex") else ok_val()}
 	m = spec["m"]
 	vals = [ok_val() for _ in range(m)]
@@ -249,6 +251,7 @@ def run_rows(chk, spec):
 		return True
 	if not look("construction"):
 		return
+	held = [t[i] for i in range(n)]      # rows obtained before the writes and kept
 	for wr in spec["writes"]:
 		i, j = rng.randrange(n), rng.randrange(c)
 		val = {"none": None, "wider": pool.wider(next((x for x in t.cols()[j]._underlying if x is not None), dom[0])), "same": rng.choice(dom), "str": "zz"}[wr]
@@ -262,6 +265,16 @@ def run_rows(chk, spec):
 		chk.observe(t, "row-table-after-" + wr)
 		if not look("cell-write-" + wr):
 			return
+		# a row that was taken earlier shows either what it showed then or what the table holds now - and its dtype covers whatever it shows
+		for r in held:
+			vals = list(r)
+			msg = M.truthful(vals, r.schema())
+			if msg:
+				chk.fail("the reported dtype is truthful", f"truth/held-row/cell-write-{wr}", f"{spec!r}: a row taken before the write now reads {short(vals, 120)} and reports {r.schema()!r}: {msg}")
+				return
+			for d in (call(r.copy), call(lambda: r[0:c]), call(r.sort_by) if all(isinstance(x, (int, float)) and x is not None for x in vals) else call(r.copy)):
+				if d.ok and isinstance(d.value, Vector) and not isinstance(d.value, Row):
+					truth(chk, d.value, "held-row-derived-" + wr)
 
 
 def run_unusual(chk, spec):
@@ -313,7 +326,7 @@ RUNNERS = {"rows": run_rows, "unusual": run_unusual, "weak": run_weak, "assign":
 
 WEAK_OPS = ["radd-scalar", "radd-list", "rsub-scalar", "rmul-scalar", "rtruediv", "rpow", "add-wider-scalar", "add-wider-vector", "neg", "pos", "abs", "invert",
 	"lshift-wider", "lshift-none", "lshift-str", "lshift-list-mixed", "lshift-vector", "rlshift", "cast-str", "cast-float", "cast-int", "cast-bool", "cast-callable", "cast-date-from-iso", "cast-datetime-from-iso", "cast-date-of-dates", "cast-date-of-datetimes", "cast-datetime-of-dates", "promoted-date-plus-int", "promoted-date-plus-intvec", "promoted-date-minus-timedelta", "promoted-int-abs", "promoted-int-neg",
-	"promoted-int-invert-free", "zero-plus-bool", "false-plus-bool", "sum-of-bool-vectors", "zero-plus-numeric-holding-bool", "new-empty", "new-empty-typesafe",
+	"promoted-int-invert-free", "peek-non-string-names", "peek-args", "zero-plus-bool", "false-plus-bool", "sum-of-bool-vectors", "zero-plus-numeric-holding-bool", "new-empty", "new-empty-typesafe",
 	"fillna-same", "fillna-wider", "fillna-none", "fillna-integral-wider", "lshift-vector-none", "lshift-vector-same", "and-int", "or-vector", "xor-list",
 	"new-equal-narrower-first", "agg-stdev", "win-stdev", "dropna", "isna", "unique", "sort", "to_object", "T", "slice", "mask", "pluck", "new", "new-typesafe", "new-none-typesafe", "new-none", "isinstance",
 	"compare", "matmul-table", "table-sum", "table-max", "table-mean"]
@@ -360,6 +373,15 @@ def run(chk):
 				idx += 1
 				if chk.mine(idx):
 					chk.case("unusual", {"kind": kind, "what": what, "n": n, "seed": rng.randrange(10**9)}, "unusual")
+	# equal values of different kinds inside one batch (3 next to 3.0, 1 next to True): each one counts
+	for kind in ("int", "float", "bool"):
+		for form in ("slice", "idxlist", "idxvec", "mask"):
+			for nullable in (False, True):
+				for specials in ([(0, "int3"), (1, "float3")], [(0, "float3"), (1, "int3")], [(0, "int3"), (1, "complex3")], [(0, "int3"), (1, "int3"), (2, "float3")], [(0, "true"), (1, "int1")], [(0, "int1"), (1, "float1")],
+						[(0, "true"), (1, "float1")], [(1, "int3"), (2, "complex3")]):
+					idx += 1
+					if chk.mine(idx):
+						chk.case("assign", {"kind": kind, "form": form, "nullable": nullable, "specials": specials, "n": rng.choice([3, 4]), "m": 3, "seed": rng.randrange(10**9)}, "weak-assign-equal-values")
 	for i in range(80 if chk.quick() else 300):
 		chk.case("history", {"seed": rng.randrange(10**9), "nsteps": rng.choice([15, 30]) if chk.quick() else rng.choice([15, 30, 60]), "profile": rng.choice(["mixed", "tables"])}, "history")
 	for other in ("C05", "C06", "C07", "C09", "C10", "C12", "C13", "C14", "C19"):
